@@ -14,6 +14,7 @@ import (
 
 	"github.com/MixinNetwork/mixin/common"
 	"github.com/MixinNetwork/mixin/crypto"
+	"github.com/MixinNetwork/mixin/kernel/internal/clock"
 	"github.com/MixinNetwork/mixin/verifmc"
 	"github.com/MixinNetwork/mixin/verifmc/fixc"
 )
@@ -151,7 +152,10 @@ func c22Scripts() [][]c22Step {
 	// fork path: X spends b3's output and is admitted unfinalized; the finalized
 	// snapshot carries Y spending the same output -> takeover prunes X
 	admitX := c22Admit("admit-unfinalized-X(b3)", mcCrTransfer(true, "c22-b3", "3", "1", "2", "c22-X"))
-	finalY := c22Deliver(mcDelivery{Name: "ch3:new-round:Y-takes-over-X", Chain: 3, NewRound: true, TsOffset: 45 * sec, Build: mcCrTransfer(true, "c22-b3", "3", "2", "1", "c22-Y")})
+	// finalY's new round references chain 5's latest final round (number >= 1): LINK ch3->ch5 >= 1
+	finalY := c22DeliverExt(mcDelivery{Name: "ch3:new-round(ext-ch5):Y-takes-over-X", Chain: 3, NewRound: true, TsOffset: 45 * sec, Build: mcCrTransfer(true, "c22-b3", "3", "2", "1", "c22-Y")}, 5)
+	// a further round transition of chain 3 (keeps the external reference to chain 5)
+	b10 := c22Deliver(mcDelivery{Name: "ch3:new-round:deposit-b10", Chain: 3, NewRound: true, TsOffset: 56 * sec, Build: mcCrDepositBTC("c22-b10", "1")})
 	work3 := c22Work(3)
 	work2 := c22Work(2)
 	// re-inclusion of an already finalized transaction by a finalized snapshot of
@@ -167,28 +171,88 @@ func c22Scripts() [][]c22Step {
 	//        deposit b7}; the round is closed by b9 (ch5 new round)
 	dupA := c22Reinclude(mcDelivery{Name: "ch4:reinclude-b1(of-ch3)", Chain: 4, TsOffset: 3 * sec, Build: mcCrDepositBTC("c22-b1", "10")}, 1)
 	dupB := c22Reinclude(mcDelivery{Name: "ch5:new-round:reinclude-t2(of-ch2)", Chain: 5, NewRound: true, TsOffset: 30 * sec, Build: mcCrTransfer(true, "c22-b2", "10", "1", "9", "c22-t2")}, 1)
-	dupC := c22Reinclude(mcDelivery{Name: "ch5:new-round:batch-reinclude-b2(of-ch4)+b7", Chain: 5, NewRound: true, TsOffset: 46 * sec, Build: func(m *mcNode, ts uint64) []*common.VersionedTransaction {
+	dupC := c22ReincludeExt(mcDelivery{Name: "ch5:new-round(ext-ch3):batch-reinclude-b2(of-ch4)+b7", Chain: 5, NewRound: true, TsOffset: 46 * sec, Build: func(m *mcNode, ts uint64) []*common.VersionedTransaction {
 		var out []*common.VersionedTransaction
 		out = append(out, mcCrDepositBTC("c22-b2", "10")(m, ts)...)
 		out = append(out, mcCrDepositBTC("c22-b7", "7")(m, ts)...)
 		return out
-	}}, 1)
+	}}, 1, 3)
 	b9 := c22Deliver(mcDelivery{Name: "ch5:new-round:deposit-b9", Chain: 5, NewRound: true, TsOffset: 55 * sec, Build: mcCrDepositBTC("c22-b9", "9")})
+	// External references with round numbers >= 1 in BOTH directions of the node
+	// order (chain 3 -> chain 5 by finalY, chain 5 -> chain 3 by dupC), each
+	// followed by a further round transition of the same chain towards the same
+	// node (b10 for chain 3, b9 for chain 5), so that restarts happen on ledgers
+	// with non-zero LINK records towards nodes ordered before AND after the
+	// chain's own id and the continuation performs round transitions over them.
 	// order constraints: dupA after b1 and before b5; dupB after split and ehu;
-	// dupC after b2 and dupB; b9 after dupC
+	// dupC after three, b2 and dupB; b9 after dupC; finalY after dupB; b10 after finalY
 	return [][]c22Step{
-		{fundP, b1, b2, dupA, three, pledge, split, b5, ehu, dupB, admitX, finalY, dupC, work3, b9, work2},
-		{b1, dupA, b2, fundP, ehu, three, admitX, split, dupB, pledge, dupC, finalY, b5, b9, work2, work3},
-		{b2, b1, three, admitX, finalY, work3, fundP, split, pledge, dupA, b5, ehu, dupB, dupC, b9, work2},
-		{ehu, fundP, pledge, b1, three, b2, admitX, split, dupB, work2, dupA, dupC, finalY, b5, b9, work3},
+		{fundP, b1, b2, dupA, three, pledge, split, b5, ehu, dupB, admitX, finalY, dupC, work3, b9, b10, work2},
+		{b1, dupA, b2, fundP, ehu, three, admitX, split, dupB, pledge, dupC, finalY, b5, b10, b9, work2, work3},
+		{b2, b1, three, admitX, fundP, split, pledge, dupA, b5, ehu, dupB, finalY, work3, dupC, b10, b9, work2},
+		{ehu, fundP, pledge, b1, three, b2, admitX, split, dupB, work2, dupA, dupC, finalY, b10, b5, b9, work3},
 	}
 }
+
+// c22DeliverNewRoundExt is mcDeliver for a snapshot that opens round
+// cache.Number+1 with an external reference to the CURRENT final round of chain
+// ext (instead of keeping the head's external reference). When the head round
+// is already empty (the round transition was durable before a crash and the
+// delivery is repeated) the snapshot goes into the head round with its stored
+// references, exactly like mcDeliver.
+func c22DeliverNewRoundExt(m *mcNode, d *mcDelivery, ext int) {
+	chain := m.chainOf(m.Net.NodeIds[d.Chain])
+	cache, _ := chain.StateCopy()
+	if len(cache.Snapshots) == 0 {
+		mcDeliver(m, d)
+		return
+	}
+	_, ef := m.chainOf(m.Net.NodeIds[ext]).StateCopy()
+	if ef.Number < 1 {
+		panic(fmt.Sprintf("harness: %s: external chain %d has no final round >= 1", d.Name, ext))
+	}
+	ts := m.Net.Epoch + uint64(mcCrashBase+d.TsOffset)
+	chainId := m.Net.NodeIds[d.Chain]
+	txs := d.Build(m, ts)
+	for _, tx := range txs {
+		if err := m.Store.CacheStoreTransaction(tx); err != nil {
+			panic(err)
+		}
+	}
+	s := &common.Snapshot{Version: common.SnapshotVersionCommonEncoding, NodeId: chainId, Timestamp: ts, RoundNumber: cache.Number + 1}
+	s.References = &common.RoundLink{Self: cache.asFinal().Hash, External: ef.Hash}
+	hs := make([]crypto.Hash, len(txs))
+	for i, tx := range txs {
+		hs[i] = tx.PayloadHash()
+	}
+	sort.Slice(hs, func(i, j int) bool { return strings.Compare(string(hs[i][:]), string(hs[j][:])) < 0 })
+	for _, h := range hs {
+		s.AddTransaction(h)
+	}
+	s.Hash = s.PayloadHash()
+	ids, publics := chain.ConsensusKeys(s.RoundNumber, ts)
+	idx := mcSignerSet(ids, chainId, m.Node.ConsensusThreshold(ts, true))
+	s.Signature = mcDetCosiSign(m.Net, publics, idx, s.Hash)
+	err := chain.cosiHandleFinalization(&CosiAction{Action: CosiActionFinalization, PeerId: m.Net.NodeIds[(d.Chain+8)%7], Snapshot: s, SnapshotHash: s.Hash})
+	if err != nil {
+		panic(fmt.Errorf("cosiHandleFinalization(%s): %w", d.Name, err))
+	}
+}
+
+func c22DeliverExt(d mcDelivery, ext int) c22Step {
+	return c22Step{name: d.Name, run: func(m *mcNode) { dd := d; c22DeliverNewRoundExt(m, &dd, ext) }}
+}
+
 
 // c22Reinclude delivers a finalized snapshot whose first `dups` transactions (in
 // Build order) are ALREADY finalized by a snapshot of another chain. Driver
 // precondition (checked, not assumed): each of them has a finalization record
 // naming a snapshot of a different chain when the delivery is made.
-func c22Reinclude(d mcDelivery, dups int) c22Step {
+func c22Reinclude(d mcDelivery, dups int) c22Step { return c22ReincludeExt(d, dups, 0) }
+
+// c22ReincludeExt: ext > 0 opens the new round with an external reference to
+// the current final round of chain ext (c22DeliverNewRoundExt).
+func c22ReincludeExt(d mcDelivery, dups, ext int) c22Step {
 	return c22Step{name: d.Name, run: func(m *mcNode) {
 		ts := m.Net.Epoch + uint64(mcCrashBase+d.TsOffset)
 		for i, tx := range d.Build(m, ts) {
@@ -214,7 +278,11 @@ func c22Reinclude(d mcDelivery, dups int) c22Step {
 			}
 		}
 		dd := d
-		mcDeliver(m, &dd)
+		if ext > 0 {
+			c22DeliverNewRoundExt(m, &dd, ext)
+		} else {
+			mcDeliver(m, &dd)
+		}
 	}}
 }
 
@@ -349,7 +417,88 @@ func c22Invariants(m *mcNode, report func(key, desc string), ctx string) {
 				report("link-mismatch", fmt.Sprintf("%s: link %s->%s stored %d loaded %d", ctx, id, x, l, n))
 			}
 		}
+		// the in-memory chain state equals what the store holds: the link towards
+		// EVERY other node (also those the loader left out of the map), the head
+		// round's references and the final round
+		for _, x := range c22AllNodeIds(m) {
+			if x == id {
+				continue
+			}
+			l, err := st.ReadLink(id, x)
+			if err != nil || l != ch.State.RoundLinks[x] {
+				report("restart:chain-state-differs-from-store:links", fmt.Sprintf("%s: chain %s link towards %s: store %d, chain state %d (%v)", ctx, id, x, l, ch.State.RoundLinks[x], err))
+			}
+		}
+		if !head.References.Equal(ch.State.CacheRound.References) {
+			report("restart:chain-state-differs-from-store:head-references", fmt.Sprintf("%s: chain %s head round %d references: store %v, chain state %v", ctx, id, head.Number, head.References, ch.State.CacheRound.References))
+		}
+		if f := ch.State.FinalRound; f == nil || f.Hash != head.References.Self || f.Number+1 != head.Number || f.NodeId != id {
+			report("restart:chain-state-differs-from-store:final-round", fmt.Sprintf("%s: chain %s final round in chain state %v, store head %d references self %s", ctx, id, f, head.Number, head.References.Self))
+		}
 	}
+}
+
+// c22AllNodeIds: every node the chain loader considers (node list without
+// state, in the loader's own order), which includes pledging nodes.
+func c22AllNodeIds(m *mcNode) []crypto.Hash {
+	var ids []crypto.Hash
+	for _, cn := range m.Node.NodesListWithoutState(clock.NowUnixNano(), false) {
+		ids = append(ids, cn.IdForNetwork)
+	}
+	return ids
+}
+
+// c22Links returns the stored non-zero links chain->node as two sets split by
+// the direction in the loader's node order: forward = towards a node ordered
+// AFTER the chain's own id, backward = towards a node ordered before it.
+func c22Links(m *mcNode) (fwd, bwd map[[2]crypto.Hash]uint64) {
+	fwd, bwd = map[[2]crypto.Hash]uint64{}, map[[2]crypto.Hash]uint64{}
+	ids := c22AllNodeIds(m)
+	for i, a := range ids {
+		for j, b := range ids {
+			if i == j {
+				continue
+			}
+			l, err := m.Store.ReadLink(a, b)
+			if err != nil || l == 0 {
+				continue
+			}
+			if i < j {
+				fwd[[2]crypto.Hash{a, b}] = l
+			} else {
+				bwd[[2]crypto.Hash{a, b}] = l
+			}
+		}
+	}
+	return fwd, bwd
+}
+
+// c22TransitionsOver counts the pairs of links (as stored at the restart) whose
+// chain has, since then, opened a new round (head number grew) whose external
+// reference is a round of that very node.
+func c22TransitionsOver(m *mcNode, heads map[crypto.Hash]uint64, links map[[2]crypto.Hash]uint64) int {
+	n := 0
+	for k := range links {
+		head, err := m.Store.ReadRound(k[0])
+		if err != nil || head == nil || head.Number <= heads[k[0]] {
+			continue
+		}
+		ext, err := m.Store.ReadRound(head.References.External)
+		if err == nil && ext != nil && ext.NodeId == k[1] {
+			n++
+		}
+	}
+	return n
+}
+
+func c22Heads(m *mcNode) map[crypto.Hash]uint64 {
+	heads := map[crypto.Hash]uint64{}
+	for _, id := range m.Net.NodeIds {
+		if head, err := m.Store.ReadRound(id); err == nil && head != nil {
+			heads[id] = head.Number
+		}
+	}
+	return heads
 }
 
 // c22RunSteps runs steps[from:]. With a crash controller it stops after the step
@@ -380,7 +529,7 @@ func c22Normalize(d map[string]string) map[string]string {
 func TestMC_C22(t *testing.T) {
 	c := verifmc.Start(t, "C22", "model_checking")
 	defer c.Finish()
-	c.SetRule("4 fixed multi-chain scripts of 16 kernel-level steps (finalization deliveries through the real cosiHandleFinalization incl. new rounds, a 3-member batch, a node pledge with consensus marker and node-operation lock, an empty-head reference update, an unfinalized admission displaced by a finalized takeover, round-work aggregation, and three re-inclusions of an already finalized transaction by a finalized snapshot of another chain - in a head round, as first snapshot of a new round, inside a 2-member batch - each followed by a round transition of the re-including chain so that the round with the duplicate becomes final); each script is cut before EVERY durable commit of the snapshot DB; after each cut: reopen + real SetupNode + invariants, then the rest of the script is re-delivered and the final database compared byte for byte with the uncut run")
+	c.SetRule("4 fixed multi-chain scripts of 17 kernel-level steps (finalization deliveries through the real cosiHandleFinalization incl. new rounds, a 3-member batch, a node pledge with consensus marker and node-operation lock, an empty-head reference update, an unfinalized admission displaced by a finalized takeover, round-work aggregation, and three re-inclusions of an already finalized transaction by a finalized snapshot of another chain - in a head round, as first snapshot of a new round, inside a 2-member batch - each followed by a round transition of the re-including chain so that the round with the duplicate becomes final; two new rounds reference another chain's final round >= 1, one towards a later-ordered and one towards an earlier-ordered node, each followed by a further round transition of the same chain over that link); each script is cut before EVERY durable commit of the snapshot DB; after each cut: reopen + real SetupNode + invariants, invariants incl. in-memory chain state (links towards every node, head references, final round) == store, then the rest of the script is re-delivered and the final database compared byte for byte with the uncut run")
 	c.Assume("a Badger commit is the atomic durable unit; durable state after 'crash before commit k' is exactly commits 1..k-1", "fixed scripts instead of a randomized workload (stated deviation); peers re-deliver finalizations after a restart")
 	base := mcScratchDir("c22-")
 	defer mcRemoveAll(base)
@@ -411,6 +560,8 @@ func TestMC_C22(t *testing.T) {
 		c22Invariants(run.M, func(k, d string) { c.Violation(k, d, map[string]any{"script": si, "cut": "none"}) }, fmt.Sprintf("script %d uncut", si))
 		finals[si] = c22Normalize(run.M.Store.VerifDump(""))
 		dupAll, dupFinal := c22Duplicates(run.M)
+		lf, lb := c22Links(run.M)
+		c.Require(len(lf) >= 1 && len(lb) >= 1, "script %d: the uncut run ends with %d links >= 1 towards later-ordered nodes and %d towards earlier-ordered nodes; both directions are needed", si, len(lf), len(lb))
 		c.Require(dupAll == 3 && dupFinal == 3, "script %d: expected 3 cross-chain re-inclusions, all in final rounds at the end; got %d, %d final", si, dupAll, dupFinal)
 		run.Crash()
 		mcRemoveAll(dir)
@@ -422,6 +573,7 @@ func TestMC_C22(t *testing.T) {
 	var mu sync.Mutex
 	classes := map[string]int{}
 	restartsWithDup, restartsWithFinalDup, maxFinalDup := 0, 0, 0
+	restartsFwd, restartsBwd, contFwd, contBwd := 0, 0, 0, 0
 	c.ParallelN(len(jobs), "crash cuts", func(_, ji int) {
 		j := jobs[ji]
 		steps := scripts[j.script]
@@ -455,6 +607,8 @@ func TestMC_C22(t *testing.T) {
 		}
 		c22Invariants(re, report, ctx+" in step "+steps[at].name)
 		dupAll, dupFinal := c22Duplicates(re)
+		linksFwd, linksBwd := c22Links(re)
+		heads := c22Heads(re)
 		// continue: the interrupted step and everything after it is re-delivered
 		if fa, p2 := c22RunSteps(re, steps, at, nil); p2 != nil {
 			report("continue-failed:"+steps[fa].name, fmt.Sprintf("%s: after restart step %s failed: %v", ctx, steps[fa].name, p2))
@@ -466,9 +620,22 @@ func TestMC_C22(t *testing.T) {
 		if finals[j.script] != nil && !reflect.DeepEqual(final, finals[j.script]) {
 			report("final-state-differs:crash-in:"+steps[at].name, fmt.Sprintf("%s: database after restart+continue differs from the uncut run: %s", ctx, c22Diff(finals[j.script], final)))
 		}
+		tf, tb := c22TransitionsOver(re, heads, linksFwd), c22TransitionsOver(re, heads, linksBwd)
 		re.Close()
 		mu.Lock()
 		classes[steps[at].name]++
+		if len(linksFwd) > 0 {
+			restartsFwd++
+		}
+		if len(linksBwd) > 0 {
+			restartsBwd++
+		}
+		if tf > 0 {
+			contFwd++
+		}
+		if tb > 0 {
+			contBwd++
+		}
 		if dupAll > 0 {
 			restartsWithDup++
 		}
@@ -486,6 +653,12 @@ func TestMC_C22(t *testing.T) {
 	c.Set("restarts_with_cross_chain_reinclusion", restartsWithDup)
 	c.Set("restarts_with_reinclusion_in_final_round", restartsWithFinalDup)
 	c.Set("max_reinclusions_in_final_rounds_at_restart", maxFinalDup)
+	c.Set("restarts_with_link_ge1_to_later_ordered_node", restartsFwd)
+	c.Set("restarts_with_link_ge1_to_earlier_ordered_node", restartsBwd)
+	c.Set("continuations_with_round_transition_over_link_to_later_node", contFwd)
+	c.Set("continuations_with_round_transition_over_link_to_earlier_node", contBwd)
+	c.Require((restartsFwd >= 5 && restartsBwd >= 5) || c.Violations() > 0, "restarts on ledgers with non-zero links: %d towards later-ordered nodes, %d towards earlier-ordered nodes (need >= 5 each)", restartsFwd, restartsBwd)
+	c.Require((contFwd >= 2 && contBwd >= 2) || c.Violations() > 0, "continuations after a restart with a round transition over an existing non-zero link: %d towards later-ordered nodes, %d towards earlier-ordered nodes (need >= 2 each)", contFwd, contBwd)
 	c.Require(restartsWithFinalDup >= 10 || c.Violations() > 0, "only %d restarts happened on a ledger with a cross-chain re-inclusion in a final round", restartsWithFinalDup)
 	c.Require(maxFinalDup == 3 || c.Violations() > 0, "no restart saw all 3 re-inclusions in final rounds (max %d)", maxFinalDup)
 	c.Require(len(jobs) >= 40, "only %d crash cuts", len(jobs))
